@@ -85,6 +85,9 @@ def run(ctx):
     ctx.rule("R20.e", "what counts as changed: the comparator behind values(onlychanged=True) -- which decides what pprint / script_repr may leave out -- interpreted on small containers: "
                       "equal iff same type, same keys and equal values KEY BY KEY (a dict with the default's keys in another order and positionally matching values is a changed value) -- "
                       "shared with R03.c", floor=1)
+    ctx.rule("R20.v", "changed-values model: Parameters.values(onlychanged=True) interpreted for x=None (allow_None, default 10), y at its default, z changed, generated name: exactly x and z", floor=1)
+    ctx.rule("R20.r", "every printer registered in script_repr_reg is decided by a model of this check (list, tuple, float) or outside the property's value set (FunctionType); another "
+                      "registration makes the check answer `cannot decide`", floor=1)
     ctx.rule("R20.i", "script imports model: script_repr interpreted with a printer that needs `import shapes`, `import shapes3d`, `import pkg`, `import pkg.sub`: the import lines of the script "
                       "bind every top-level module the printed text refers to, each line once", floor=1)
     ctx.rule("R20.n", "the value the printer reads is the value attribute access gives: no reader of the per-instance value store conflates an explicit None with 'not set' "
@@ -98,6 +101,8 @@ def run(ctx):
     object_printer_model(ctx, "R20.c")
     recursion_guard_rule(ctx, "R20.d")
     script_imports_model(ctx, "R20.i")
+    registered_printers_have_models(ctx, "R20.r")
+    changed_values_model(ctx, "R20.v")
     from checks.shared import comparator_model
     comparator_model(ctx, "R20.e")
     from checks.c15 import value_store_none_is_a_value
@@ -368,3 +373,76 @@ def script_imports_model(ctx, rule):
         ctx.fail(rule, f, f.node, "script imports model: an import line is emitted twice (%s)" % head, key=f.qualname + "::import-twice")
     else:
         ctx.ok(rule, f, f.node, "script imports model: every top-level module the printed text refers to is bound by an emitted import line, each line once")
+
+
+PRINTER_MODELS = {"list": "R20.a", "tuple": "R20.a", "float": "R20.b", "FunctionType": "functions are outside the property's value set (literals, containers of literals, nested Parameterized)"}
+
+
+def registered_printers_have_models(ctx, rule):
+    """pprint dispatches on the exact type of a value through `script_repr_reg` before it falls back to repr().  Every type
+    registered there is either decided by a printer model of this check or outside the property's value set (frozen
+    table); a printer registered for another type -- str, int, dict, ... -- changes what is printed for literals, and no
+    model here interprets it: the check cannot decide and says so (exit 2), it does not pass."""
+    regs = []
+    for mod in ctx.repo.modules.values() if hasattr(ctx.repo, "modules") else []:
+        pass
+    f = ctx.repo.func("param.parameterized.script_repr")
+    tree = f.module.tree if hasattr(f.module, "tree") else None
+    if tree is None:
+        raise AnalysisError("%s: the module source of param.parameterized is not available" % rule)
+    for st in ast.walk(tree):
+        if isinstance(st, ast.Assign):
+            for t in st.targets:
+                if isinstance(t, ast.Subscript) and norm(t.value) == "script_repr_reg":
+                    regs.append((norm(t.slice), st))
+    ctx.require(len(regs) >= 3, "fewer than 3 registrations in script_repr_reg found (%d)" % len(regs))
+    unknown = [(k, st) for k, st in regs if k not in PRINTER_MODELS]
+    if unknown:
+        raise AnalysisError("%s: a printer is registered for `%s` (`%s`) that no printer model of this check interprets -- what pprint emits for such values is not decided" % (
+            rule, unknown[0][0], norm(unknown[0][1])[:60]))
+    ctx.ok(rule, f, regs[0][1], "every type registered in script_repr_reg (%s) is covered by a printer model or outside the property's value set" % ", ".join(k for k, _ in regs))
+
+
+def changed_values_model(ctx, rule):
+    """Parameters.values(onlychanged=True) -- the list of keywords pprint / script_repr emit -- interpreted for an object
+    with: x explicitly set to None (allow_None, default 10), y equal to its default, z changed, and an auto-generated
+    name.  Specification: exactly the parameters whose value the comparator tells from the default are listed: x (None is
+    a value like any other) and z; y and the generated name are left out."""
+    from engine.absint import Interp, Obj, Unsupported
+    f = ctx.repo.func("param.parameterized.Parameters.values")
+    dx, dy, dz = 10, Obj("default_of_y"), Obj("default_of_z")
+    vz = Obj("changed_value_of_z")
+    pobjs = {"name": Obj("P_name", default="Cls", allow_None=False), "x": Obj("P_x", default=dx, allow_None=True), "y": Obj("P_y", default=dy, allow_None=False), "z": Obj("P_z", default=dz, allow_None=True)}
+    current = {"name": "Cls00042", "x": None, "y": dy, "z": vz}
+    target = Obj("instance")
+    pns = Obj("namespace", self_or_cls=target, self=target, cls=Obj("Cls", __name__="Cls"))
+    target.attrs["param"] = pns
+
+    def hook(fn, args, kwargs):
+        if fn.endswith(".param.objects") or fn.endswith(".objects"):
+            return dict(pobjs)
+        if fn.endswith(".get_value_generator") and args:
+            return current[args[0]]
+        if fn == "_is_auto_name" and len(args) == 2:
+            return True
+        if fn == "Comparator.is_equal" and len(args) == 2:
+            return args[0] is args[1] or (isinstance(args[0], int) and args[0] == args[1])
+        if fn == "itemgetter" and len(args) == 1 and isinstance(args[0], int):
+            from engine.absint import PyFunc
+            return PyFunc("itemgetter", lambda t, i=args[0]: t[i])
+        return NotImplemented
+    it = Interp(ctx.hier, dyn="param.parameterized.Parameters", inline=lambda m: False, call_hook=hook)
+    try:
+        outs = it.run_all(f, {f.params[0]: pns, "onlychanged": True})
+    except Unsupported as e:
+        raise AnalysisError("%s: absint cannot interpret Parameters.values: %s" % (rule, e))
+    if len(outs) != 1 or outs[0].imprecise or outs[0].kind != "return" or not isinstance(outs[0].value, dict):
+        raise AnalysisError("%s: Parameters.values(onlychanged=True) is not interpretable precisely (%s)" % (rule, outs[0].notes[:2] if outs else "no outcome"))
+    ctx.abstract_cases += 1
+    got = outs[0].value
+    if set(got) != {"x", "z"} or got.get("x") is not None or got.get("z") is not vz:
+        ctx.fail(rule, f, f.node, "values(onlychanged=True) of an object with x explicitly None (allow_None, default 10), y at its default and z changed lists %s, specification ['x', 'z']: %s" % (
+            sorted(got), "a parameter cleared to None is left out of the printed constructor call -- the rebuilt object gets the default back" if "x" not in got else "the list is not what the comparator says"),
+            key=f.qualname + "::changed-values", input="P(x=None).param.pprint() -> 'P()' for x = Number(10, allow_None=True)")
+    else:
+        ctx.ok(rule, f, f.node, "values(onlychanged=True) lists exactly the parameters the comparator tells from their default (an explicit None included)")
